@@ -1,0 +1,52 @@
+// Copyright (C) 2026 Storj Labs, Inc.
+// See LICENSE for copying information.
+
+//go:build verif
+// +build verif
+
+package drpcpool
+
+// VerifSnapshot describes the cached entries of a Pool as seen under its lock.
+type VerifSnapshot[K comparable, V Conn] struct {
+	GlobalCount int       // the count field of the global list
+	GlobalKeys  []K       // keys found by walking the global list from head
+	GlobalVals  []V       // values found by walking the global list from head
+	KeyCount    map[K]int // the count field of each per key list
+	KeyVals     map[K][]V // values found by walking each per key list from head
+	WalkLimit   bool      // true if a walk was cut off (cycle or corruption)
+}
+
+// VerifSnapshot walks the Pool's lists under the lock. It is only available
+// with the verif build tag.
+func (p *Pool[K, V]) VerifSnapshot() (snap VerifSnapshot[K, V]) {
+	p.mu.Lock()
+	defer p.mu.Unlock()
+
+	const limit = 1 << 20
+
+	snap.GlobalCount = p.order.count
+	n := 0
+	for ent := p.order.head; ent != nil; ent = ent.global.next {
+		snap.GlobalKeys = append(snap.GlobalKeys, ent.key)
+		snap.GlobalVals = append(snap.GlobalVals, ent.val)
+		if n++; n > limit {
+			snap.WalkLimit = true
+			break
+		}
+	}
+
+	snap.KeyCount = make(map[K]int)
+	snap.KeyVals = make(map[K][]V)
+	for key, local := range p.entries {
+		snap.KeyCount[key] = local.count
+		n := 0
+		for ent := local.head; ent != nil; ent = ent.local.next {
+			snap.KeyVals[key] = append(snap.KeyVals[key], ent.val)
+			if n++; n > limit {
+				snap.WalkLimit = true
+				break
+			}
+		}
+	}
+	return snap
+}
